@@ -1,5 +1,5 @@
 import Qhttp.Model.Http
-import Qhttp.Lemmas.C03Hdr
+import Qhttp.Lemmas.C03Wire
 /-
   C03 — every response on the wire is exactly the status, headers and body that were set.
 -/
@@ -106,5 +106,291 @@ def holds (env : Env) (sc : Scenario) (obs : List Obs) : Bool :=
      (Http.names m.headers).all (fun n => (spec.values.any fun e => e.1 == n && !e.2.isEmpty)) &&
      spec.values.all (fun e => e.2.isEmpty ||
         Http.sortBytes (Http.valuesOf e.1 m.headers) == splitVals e.2))
+
+open Qhttp.HB Qhttp.Http Qhttp.C03L Qhttp.HeaderMap
+
+/-! ## Proofs -/
+
+/-! ### the abstract value table -/
+
+/-- the values the abstract response holds under a case-folded name -/
+def look (k : Bytes) : List (Bytes × List Bytes) → List Bytes
+  | [] => []
+  | (k', vs) :: m => if k' == k then vs else look k m
+
+theorem look_setVals (n : Bytes) (f : List Bytes → List Bytes) (k : Bytes) (vals : List (Bytes × List Bytes)) :
+    look k (setVals n f vals) = if k = lower n then f (look (lower n) vals) else look k vals := by
+  induction vals with
+  | nil =>
+    simp only [setVals, look]
+    by_cases h : k = lower n
+    · simp [h]
+    · have : ¬ lower n = k := fun e => h e.symm
+      simp [h, this]
+  | cons a vals ih =>
+    obtain ⟨k', vs⟩ := a
+    simp only [setVals]
+    by_cases h1 : k' = lower n
+    · subst h1
+      by_cases h : k = lower n
+      · subst h; simp [look]
+      · have : ¬ lower n = k := fun e => h e.symm
+        simp [look, h, this]
+    · by_cases h : k = lower n
+      · subst h; simp [look, h1, ih]
+      · simp only [beq_iff_eq, h1, if_false, look, ih, h]
+
+/-- keys are case-folded and distinct, every entry holds at least one value -/
+def KeysOk (vals : List (Bytes × List Bytes)) : Prop :=
+  (vals.map (·.1)).Nodup ∧ ∀ e ∈ vals, lower e.1 = e.1 ∧ e.2 ≠ []
+
+theorem keys_setVals (n : Bytes) (f : List Bytes → List Bytes) (vals : List (Bytes × List Bytes)) (k : Bytes) :
+    k ∈ (setVals n f vals).map (·.1) ↔ k = lower n ∨ k ∈ vals.map (·.1) := by
+  induction vals with
+  | nil => simp [setVals]
+  | cons a vals ih =>
+    obtain ⟨k', vs⟩ := a
+    simp only [setVals]
+    by_cases h1 : k' = lower n
+    · subst h1; simp only [beq_self_eq_true, if_true, List.map_cons, List.mem_cons]
+      constructor
+      · intro h; rcases h with h | h
+        · exact Or.inl h
+        · exact Or.inr (Or.inr h)
+      · intro h; rcases h with h | h | h
+        · exact Or.inl h
+        · exact Or.inl h
+        · exact Or.inr h
+    · simp only [beq_iff_eq, h1, if_false, List.map_cons, List.mem_cons, ih]
+      constructor
+      · intro h; rcases h with h | h | h
+        · exact Or.inr (Or.inl h)
+        · exact Or.inl h
+        · exact Or.inr (Or.inr h)
+      · intro h; rcases h with h | h | h
+        · exact Or.inr (Or.inl h)
+        · exact Or.inl h
+        · exact Or.inr (Or.inr h)
+
+theorem mem_setVals {n : Bytes} {f : List Bytes → List Bytes} {vals : List (Bytes × List Bytes)}
+    {e : Bytes × List Bytes} (h : e ∈ setVals n f vals) : e ∈ vals ∨ (e.1 = lower n ∧ ∃ vs, e.2 = f vs) := by
+  induction vals with
+  | nil => simp only [setVals, List.mem_singleton] at h; subst h; exact Or.inr ⟨rfl, [], rfl⟩
+  | cons a vals ih =>
+    obtain ⟨k', vs⟩ := a
+    simp only [setVals] at h
+    by_cases h1 : k' = lower n
+    · subst h1; simp only [beq_self_eq_true, if_true, List.mem_cons] at h
+      rcases h with h | h
+      · subst h; exact Or.inr ⟨rfl, vs, rfl⟩
+      · exact Or.inl (by simp [h])
+    · simp only [beq_iff_eq, h1, if_false, List.mem_cons] at h
+      rcases h with h | h
+      · exact Or.inl (by simp [h])
+      · rcases ih h with h | h
+        · exact Or.inl (by simp [h])
+        · exact Or.inr h
+
+theorem nodup_setVals (n : Bytes) (f : List Bytes → List Bytes) {vals : List (Bytes × List Bytes)}
+    (h : (vals.map (·.1)).Nodup) : ((setVals n f vals).map (·.1)).Nodup := by
+  induction vals with
+  | nil => simp [setVals]
+  | cons a vals ih =>
+    obtain ⟨k', vs⟩ := a
+    simp only [List.map_cons, List.nodup_cons] at h
+    simp only [setVals]
+    by_cases h1 : k' = lower n
+    · subst h1; simp only [beq_self_eq_true, if_true, List.map_cons, List.nodup_cons]; exact h
+    · simp only [beq_iff_eq, h1, if_false, List.map_cons, List.nodup_cons]
+      refine ⟨?_, ih h.2⟩
+      rw [keys_setVals]; intro hk; rcases hk with hk | hk
+      · exact h1 hk
+      · exact h.1 hk
+
+theorem keysOk_setVals (n : Bytes) {f : List Bytes → List Bytes} (hf : ∀ vs, f vs ≠ [])
+    {vals : List (Bytes × List Bytes)} (h : KeysOk vals) : KeysOk (setVals n f vals) := by
+  refine ⟨nodup_setVals n f h.1, ?_⟩
+  intro e he
+  rcases mem_setVals he with he | ⟨h1, vs, h2⟩
+  · exact h.2 e he
+  · exact ⟨by rw [h1, lower_idem], by rw [h2]; exact hf vs⟩
+
+theorem look_of_mem {vals : List (Bytes × List Bytes)} (h : (vals.map (·.1)).Nodup) {e : Bytes × List Bytes}
+    (he : e ∈ vals) : look e.1 vals = e.2 := by
+  induction vals with
+  | nil => simp at he
+  | cons a vals ih =>
+    obtain ⟨k', vs⟩ := a
+    simp only [List.map_cons, List.nodup_cons] at h
+    rcases List.mem_cons.mp he with he | he
+    · subst he; simp [look]
+    · have : ¬ k' = e.1 := by
+        intro e'; apply h.1; rw [e']; exact List.mem_map.mpr ⟨e, he, rfl⟩
+      simp only [look, beq_iff_eq, this, if_false]
+      exact ih h.2 he
+
+theorem mem_of_look_ne_nil {k : Bytes} {vals : List (Bytes × List Bytes)} (h : look k vals ≠ []) :
+    ∃ e ∈ vals, e.1 = k ∧ e.2 = look k vals := by
+  induction vals with
+  | nil => simp [look] at h
+  | cons a vals ih =>
+    obtain ⟨k', vs⟩ := a
+    by_cases h1 : k' = k
+    · subst h1; exact ⟨(k', vs), by simp, rfl, by simp [look]⟩
+    · simp only [look, beq_iff_eq, h1, if_false] at h ⊢
+      obtain ⟨e, he, h2, h3⟩ := ih h
+      exact ⟨e, by simp [he], h2, h3⟩
+
+/-! ### the header map denotes the value table -/
+
+theorem splitVals_eq (l : List Bytes) : splitVals l = sortBytes (svals l) := rfl
+
+/-- simulation relation between the response header multimap and the abstract value table:
+    under every name the map carries, as a multiset of comma-separated values, exactly the
+    values of the table -/
+structure HdrRel (m : HeaderMap) (vals : List (Bytes × List Bytes)) : Prop where
+  sorted : Sorted m
+  wf : HdrWf m
+  keys : KeysOk vals
+  perm : ∀ n, (vs n m).Perm (svals (look (lower n) vals))
+
+theorem hdrRel_nil : HdrRel [] [] :=
+  ⟨List.Pairwise.nil, fun _ h => by simp at h, ⟨by simp, fun _ h => by simp at h⟩,
+   fun n => by simp [vs, svals, look, HeaderMap.values]⟩
+
+theorem keyEq_iff (a c : Bytes) : keyEq a c = true ↔ lower a = lower c := by simp [keyEq]
+
+theorem hdrRel_replace {m : HeaderMap} {vals : List (Bytes × List Bytes)} (h : HdrRel m vals) {n v : Bytes}
+    (he : EntryOk (n, v)) : HdrRel (hset n v true m) (setVals n (fun _ => [v]) vals) := by
+  refine ⟨sorted_hset h.sorted, wf_hset h.wf he, keysOk_setVals n (by simp) h.keys, ?_⟩
+  intro n'
+  refine (vs_hset_replace n v n' m).trans ?_
+  rw [look_setVals]
+  by_cases hk : lower n = lower n'
+  · rw [if_pos ((keyEq_iff _ _).mpr hk), if_pos hk.symm]; simp [svals]
+  · rw [if_neg (fun e => hk ((keyEq_iff _ _).mp e)), if_neg (fun e => hk e.symm)]; exact h.perm n'
+
+theorem hdrRel_append {m : HeaderMap} {vals : List (Bytes × List Bytes)} (h : HdrRel m vals) {n v : Bytes}
+    (he : EntryOk (n, v)) : HdrRel (hset n v false m) (setVals n (fun vs => vs ++ [v]) vals) := by
+  refine ⟨sorted_hset h.sorted, wf_hset h.wf he, keysOk_setVals n (by simp) h.keys, ?_⟩
+  intro n'
+  refine (vs_hset_append n v n' h.sorted).trans ?_
+  rw [look_setVals]
+  by_cases hk : lower n = lower n'
+  · rw [if_pos ((keyEq_iff _ _).mpr hk), if_pos hk.symm, hk]
+    simp only [svals, List.flatMap_append, List.flatMap_cons, List.flatMap_nil, List.append_nil]
+    exact List.Perm.append_right _ (h.perm n')
+  · rw [if_neg (fun e => hk ((keyEq_iff _ _).mp e)), if_neg (fun e => hk e.symm)]; exact h.perm n'
+
+theorem hdrRel_insert {m : HeaderMap} {vals : List (Bytes × List Bytes)} (h : HdrRel m vals) {k v : Bytes}
+    (he : EntryOk (k, v)) : HdrRel (HeaderMap.insert k v m) (setVals k (fun vs => vs ++ [v]) vals) := by
+  refine ⟨sorted_insert h.sorted, wf_insert h.wf he, keysOk_setVals k (by simp) h.keys, ?_⟩
+  intro n'
+  refine (vs_insert k v n' m).trans ?_
+  rw [look_setVals]
+  by_cases hk : lower k = lower n'
+  · rw [if_pos ((keyEq_iff _ _).mpr hk), if_pos hk.symm, hk]
+    simp only [svals, List.flatMap_append, List.flatMap_cons, List.flatMap_nil, List.append_nil]
+    exact List.perm_append_comm.trans (List.Perm.append_right _ (h.perm n'))
+  · rw [if_neg (fun e => hk ((keyEq_iff _ _).mp e)), if_neg (fun e => hk e.symm)]; exact h.perm n'
+
+theorem hdrRel_foldl (l : List (Bytes × Bytes)) (hl : ∀ e ∈ l, EntryOk e) :
+    ∀ {m : HeaderMap} {vals : List (Bytes × List Bytes)}, HdrRel m vals →
+    HdrRel (l.foldl (fun acc e => HeaderMap.insert e.1 e.2 acc) m)
+           (l.foldl (fun acc e => setVals e.1 (fun vs => vs ++ [e.2]) acc) vals) := by
+  induction l with
+  | nil => intro m vals h; exact h
+  | cons e l ih =>
+    intro m vals h
+    exact ih (fun e h => hl e (by simp [h])) (hdrRel_insert h (hl e (by simp)))
+
+/-- what the executable predicate checks about the header block follows from the relation -/
+theorem hdrRel_check {m : HeaderMap} {vals : List (Bytes × List Bytes)} (h : HdrRel m vals) :
+    (Http.names m).all (fun n => vals.any fun e => e.1 == n && !e.2.isEmpty) = true ∧
+    vals.all (fun e => e.2.isEmpty || Http.sortBytes (Http.valuesOf e.1 m) == splitVals e.2) = true := by
+  constructor
+  · rw [List.all_eq_true]
+    intro n hn
+    simp only [Http.names, List.mem_eraseDups, List.mem_map] at hn
+    obtain ⟨a, ha, rfl⟩ := hn
+    have hp := h.perm a.1
+    have hne : vs a.1 m ≠ [] := by
+      simp only [vs, ne_eq, svals_eq_nil]
+      intro e
+      have : a.2 ∈ HeaderMap.values a.1 m := by
+        simp only [HeaderMap.values, List.mem_map, List.mem_filter]
+        exact ⟨a, ⟨ha, by simp [keyEq]⟩, rfl⟩
+      rw [e] at this; simp at this
+    have hl : look (lower a.1) vals ≠ [] := by
+      intro e; rw [e] at hp; simp only [svals, List.flatMap_nil] at hp
+      exact hne (List.Perm.eq_nil hp)
+    obtain ⟨e, he, h1, h2⟩ := mem_of_look_ne_nil hl
+    rw [List.any_eq_true]
+    refine ⟨e, he, ?_⟩
+    simp only [Bool.and_eq_true, beq_iff_eq, Bool.not_eq_true', List.isEmpty_eq_false_iff]
+    exact ⟨h1, by rw [h2]; exact hl⟩
+  · rw [List.all_eq_true]
+    intro e he
+    have hp := h.perm e.1
+    rw [(h.keys.2 e he).1, look_of_mem h.keys.1 he] at hp
+    simp only [Bool.or_eq_true, beq_iff_eq]
+    right
+    rw [valuesOf_eq, splitVals_eq]
+    exact sortBytes_perm hp
+
+/-! ### preconditions, one call at a time -/
+
+/-- the precondition `wfOps` puts on one call, given whether the head was already requested -/
+def wfOp (op : ApiOp) (started : Bool) : Bool :=
+  match op with
+  | .status c r => c ≥ 0 && (match r with | some x => !hasCRLF x | none => true)
+  | .hdr n v _ => !n.isEmpty && !containsByte COLON n && !hasCRLF n && !hasCRLF v && (trim n == n)
+  | .hdrs m =>
+    m.all (fun e => !e.1.isEmpty && !containsByte COLON e.1 && !hasCRLF e.1 && !hasCRLF e.2 && trim e.1 == e.1)
+  | .wh => !started
+  | .write _ => true
+  | .err c r => !started && c ≥ 0 && (match r with | some x => !hasCRLF x | none => true)
+  | .redir p _ => !started && !hasCRLF p
+  | .json _ c => !started && c ≥ 0
+  | _ => true
+
+def nextSt (op : ApiOp) (started : Bool) : Bool :=
+  match op with
+  | .wh | .write _ | .err _ _ | .redir _ _ | .json _ _ => true
+  | _ => started
+
+theorem wfOps_cons (op : ApiOp) (ops : List ApiOp) (st : Bool) :
+    wfOps (op :: ops) st = (wfOp op st && wfOps ops (nextSt op st)) := by
+  cases op <;> simp [wfOps, wfOp, nextSt, Bool.and_assoc]
+  all_goals (rename_i c r; cases r <;> rfl)
+
+theorem nextSt_mono (op : ApiOp) {st : Bool} (h : st = true) : nextSt op st = true := by
+  cases op <;> simp [nextSt, h]
+
+theorem not_hasCRLF {x : Bytes} (h : hasCRLF x = false) : CR ∉ x := by
+  simp only [hasCRLF, Bool.or_eq_false_iff] at h
+  exact containsByte_eq_false.mp h.1
+
+theorem not_mem_ite {p : Prop} [Decidable p] {a b : Bytes} {c : UInt8} (ha : c ∉ a) (hb : c ∉ b) :
+    c ∉ (if p then a else b) := by split <;> assumption
+
+theorem CR_not_mem_statusReason (c : Int) : CR ∉ statusReason c := by
+  unfold statusReason
+  repeat (refine not_mem_ite (by decide) ?_)
+  decide
+
+theorem reason_ok {c : Int} {r : Option Bytes}
+    (h : (match r with | some x => !hasCRLF x | none => true) = true) :
+    CR ∉ (match r with | some x => x | none => statusReason c) := by
+  cases r with
+  | none => exact CR_not_mem_statusReason c
+  | some x => simp only [Bool.not_eq_true'] at h; exact not_hasCRLF h
+
+theorem entryOk_of_wf {n v : Bytes}
+    (h : (!n.isEmpty && !containsByte COLON n && !hasCRLF n && !hasCRLF v && (trim n == n)) = true) :
+    EntryOk (n, v) := by
+  simp only [Bool.and_eq_true, Bool.not_eq_true', List.isEmpty_eq_false_iff] at h
+  obtain ⟨⟨⟨⟨h1, h2⟩, h3⟩, h4⟩, _⟩ := h
+  exact ⟨h1, containsByte_eq_false.mp h2, not_hasCRLF h3, not_hasCRLF h4⟩
 
 end Qhttp.C03
